@@ -178,8 +178,11 @@ def check(case, obs):
     res = list(d.resolution())
     arr = np.asarray(d)
     before = fingerprint(d)
+    args_before = repr((ch_arg, nbins, scale, kw))
     out = call(d.hist_bins, ch_arg, nbins, scale, **kw)
     after = fingerprint(d)
+    obs.claim('pure', repr((ch_arg, nbins, scale, kw)) == args_before,
+              lambda: 'hist_bins changed the arguments it was given: %s -> %r' % (args_before, (ch_arg, nbins, scale, kw)))
     obs.claim('pure', not fp_diff(before, after), lambda: 'hist_bins changed the sample: %r' % fp_diff(before, after))
     bad_scale = [s for s in sc_list if s not in SCALES]
     obs.nontrivial = (any(s != 'linear' for s in sc_list) or any(n is not None for n in nb_list)
